@@ -161,17 +161,38 @@ impl OutputFeatures {
             r is Err ==> final(reader).remaining().len() <= old(reader).remaining().len(),
     { unimplemented!() }
 }
-// ed25519_dalek / uuid byte conversions: total (Err on invalid bytes), as in the crates
+// ed25519_dalek / uuid byte conversions: total (Err on invalid bytes), as in the crates; decoding the bytes of a
+// value gives the value back (axiom on the external crates)
+pub uninterp spec fn spec_dalek_pk_from(b: Seq<u8>) -> Option<DalekPublicKey>;
+pub uninterp spec fn spec_dalek_sig_bytes(s: DalekSignature) -> Seq<u8>;
+pub uninterp spec fn spec_dalek_sig_from(b: Seq<u8>) -> Option<DalekSignature>;
+pub uninterp spec fn spec_uuid_from(b: Seq<u8>) -> Uuid;
+#[verifier::external_body]
+pub proof fn axiom_byte_conversions()
+    ensures
+        forall|k: DalekPublicKey| #[trigger] spec_dalek_bytes(k).len() == 32 && spec_dalek_pk_from(spec_dalek_bytes(k)) == Some(k),
+        forall|s: DalekSignature| #[trigger] spec_dalek_sig_bytes(s).len() == 64 && spec_dalek_sig_from(spec_dalek_sig_bytes(s)) == Some(s),
+        forall|u: Uuid| #[trigger] spec_uuid_bytes(u).len() == 16 && spec_uuid_from(spec_uuid_bytes(u)) == u,
+{ }
 impl DalekPublicKey {
     #[verifier::external_body]
-    pub fn from_bytes(b: &Vec<u8>) -> (r: Result<DalekPublicKey, Ed25519Error>) { unimplemented!() }
+    pub fn from_bytes(b: &Vec<u8>) -> (r: Result<DalekPublicKey, Ed25519Error>)
+        ensures (r matches Ok(k) ==> spec_dalek_pk_from(b@) == Some(k)), r is Err ==> spec_dalek_pk_from(b@) is None
+    { unimplemented!() }
 }
 pub struct DalekSigErr { pub c: u8 }
 impl DalekSignature {
     #[verifier::external_body]
-    pub fn try_from(b: &[u8]) -> (r: Result<DalekSignature, DalekSigErr>) { unimplemented!() }
+    pub fn try_from(b: &[u8]) -> (r: Result<DalekSignature, DalekSigErr>)
+        ensures (r matches Ok(s) ==> spec_dalek_sig_from(b@) == Some(s)), r is Err ==> spec_dalek_sig_from(b@) is None
+    { unimplemented!() }
+    #[verifier::external_body]
+    pub fn to_bytes(&self) -> (r: [u8; 64]) ensures r@ == spec_dalek_sig_bytes(*self) { unimplemented!() }
 }
 impl Uuid {
     #[verifier::external_body]
-    pub fn from_bytes(b: [u8; 16]) -> (r: Uuid) { unimplemented!() }
+    pub fn from_bytes(b: [u8; 16]) -> (r: Uuid) ensures r == spec_uuid_from(b@) { unimplemented!() }
 }
+// `[u8; N]::to_vec()`
+#[verifier::external_body]
+pub fn vf_array_to_vec<const N: usize>(a: &[u8; N]) -> (r: Vec<u8>) ensures r@ == a@ { unimplemented!() }
